@@ -135,6 +135,25 @@ func (p *c17) Init(tier string) {
 	for i := range p.queries {
 		p.cases = append(p.cases, c17case{"wrapped", i})
 	}
+	for i := range c17SameText {
+		p.cases = append(p.cases, c17case{"same-text", i})
+	}
+}
+
+// c17SameText: statements whose text is legal with and without an option but means something else;
+// the same text is executed under alternating option settings in one process.
+var c17SameText = []struct {
+	text string // with double quotes / brackets
+	opt  int    // the option that changes the reading (1 pg, 2 idiomatic)
+	with string // canonical spelling of the reading with the option
+	wout string // canonical spelling of the reading without it ("" = must fail)
+}{
+	{"SELECT \"a\" AS x FROM t", 1, "SELECT `a` AS x FROM t", "SELECT 'a' AS x FROM t"},
+	{"SELECT id FROM t WHERE \"b\" = 's'", 1, "SELECT id FROM t WHERE `b` = 's'", "SELECT id FROM t WHERE 'b' = 's'"},
+	{"SELECT \"a b\" AS x, \"a0\" AS y FROM t ORDER BY \"a\" DESC", 1, "SELECT `a b` AS x, `a0` AS y FROM t ORDER BY `a` DESC", "SELECT 'a b' AS x, 'a0' AS y FROM t ORDER BY 'a' DESC"},
+	{"SELECT id, \"g\" AS k FROM t WHERE \"g\" = 'g'", 1, "SELECT id, `g` AS k FROM t WHERE `g` = 'g'", "SELECT id, 'g' AS k FROM t WHERE 'g' = 'g'"},
+	{"SELECT '[a]' AS l, [a, 1] AS v FROM t", 2, "SELECT '[a]' AS l, ARRAY(a, 1) AS v FROM t", ""},
+	{"SELECT [[1], 'x'] AS v, id FROM t WHERE id = 1", 2, "SELECT ARRAY(ARRAY(1), 'x') AS v, id FROM t WHERE id = 1", ""},
 }
 
 func (p *c17) NumCases() int { return len(p.cases) }
@@ -150,6 +169,8 @@ func (p *c17) Describe(i int) any {
 		return map[string]any{"kind": "backtick identifier content under every option combination", "identifier": p.lits[c.idx]}
 	case "array":
 		return map[string]any{"kind": "[...] vs ARRAY(...)", "expression": p.arrays[c.idx]}
+	case "same-text":
+		return map[string]any{"kind": "one statement text executed under alternating option settings in one process: each execution must follow the reading its own options give", "text": c17SameText[c.idx].text}
 	}
 	return map[string]any{"kind": "Wrapped() vs explicit {root: input}", "query": p.queries[c.idx]}
 }
@@ -313,6 +334,16 @@ func (p *c17) RunCase(i int) *core.CaseResult {
 				r.Fail("C17|backtick-content|"+optName(m)+"|"+classOf(id), fmt.Sprintf("%s with %s returns %s (%v), without options %s", sql, optName(m), got, o.Err, ob), map[string]any{"sql": sql, "options": optName(m)})
 			}
 		}
+		// the identifier followed by further quoted identifiers (what comes after a backtick identifier
+		// must still be read in the right quoting state): canonical spelling without options vs the
+		// double-quoted spelling of the later identifiers under the dialect option
+		canon2 := "SELECT id AS `" + id + "`, a AS `z q`, b AS `k` FROM `t` WHERE id = 1"
+		pg2 := "SELECT id AS `" + id + "`, a AS \"z q\", b AS `k` FROM \"t\" WHERE id = 1"
+		oc, op := outcome(gq.Run(c17Doc(), canon2)), outcome(gq.Run(c17Doc(), pg2, combos[1]...))
+		r.Execs += 2
+		if oc != op && !(strings.HasPrefix(oc, "panic") && strings.HasPrefix(op, "panic")) {
+			r.Fail("C17|backtick-then-quoted|pg|"+classOf(id), fmt.Sprintf("%s -> %s; %s with pg -> %s", canon2, oc, pg2, op), map[string]any{"canonical": canon2, "pg": pg2})
+		}
 		r.Outcomes = append(r.Outcomes, classOf(id))
 	case "array":
 		br := p.arrays[c.idx]
@@ -347,6 +378,39 @@ func (p *c17) RunCase(i int) *core.CaseResult {
 			}
 			r.Outcomes = append(r.Outcomes, fmt.Sprintf("depth%d/%s", strings.Count(br, "[["), oa[:min(len(oa), 5)]))
 		}
+	case "same-text":
+		e := c17SameText[c.idx]
+		wantWith := outcome(gq.Run(c17Doc(), e.with))
+		wantWout := "error"
+		if e.wout != "" {
+			wantWout = outcome(gq.Run(c17Doc(), e.wout))
+		}
+		r.Execs += 2
+		// two orders, each on a text of its own (the order in which the readings are first seen matters)
+		for order, suffix := range []string{" LIMIT 10", " LIMIT 11"} {
+			text := e.text + suffix
+			for step := 0; step < 4; step++ {
+				on := (step+order)%2 == 0
+				var o *gq.Out
+				want := wantWout
+				if on {
+					o = gq.Run(c17Doc(), text, combos[e.opt]...)
+					want = wantWith
+				} else {
+					o = gq.Run(c17Doc(), text)
+				}
+				r.Execs++
+				got := outcome(o)
+				if want == "error" && strings.HasPrefix(got, "error") {
+					continue
+				}
+				if got != want {
+					r.Fail("C17|same-text|"+optName(e.opt)+"|reading-depends-on-history", fmt.Sprintf("%s executed with the option %s=%v (execution %d of an alternating sequence in one process, first execution with the option: %v) returned %s; that reading, spelled canonically, returns %s", text, optName(e.opt), on, step+1, order == 0, got, want), map[string]any{"text": text, "option": optName(e.opt), "with_option": on, "step": step})
+					break
+				}
+			}
+		}
+		r.Nontrivial = true
 	case "wrapped":
 		sql := p.queries[c.idx]
 		for _, m := range []int{0, 1, 2, 3} {
@@ -369,7 +433,7 @@ func (p *c17) RunCase(i int) *core.CaseResult {
 
 func (p *c17) Meta() core.Meta {
 	return core.Meta{
-		Rule:        "identifier cases: every string of length 1..3 (thorough 4) over {a,b,space,',[,],.,0,é} as a double-quoted identifier under PostgresEscapingDialect vs the same backtick identifier without it, in 5 clause positions, with and without IdiomaticArrays; literal cases: every string of length 1..3 (thorough 4) over {a,space,\",',`,\\,[,],ë} as a string literal (echo and WHERE operand) and as a backtick alias under the three non-trivial option combinations; array cases: every bracket expression of depth <= 2 (thorough 3) over elements {1,'x',a,'[y]','é',nested} vs the ARRAY(...) spelling, next to a backtick selector with brackets, a literal with brackets, and literals / aliases with multi-byte characters before and after the brackets; wrapped cases: 15 queries (paths, joins, CTE, subqueries with <-, EXISTS, UNION, missing path) on {root: doc} vs doc with Wrapped(), under 4 option combinations. Oracle: both executions return the same rows or both fail; literal and alias contents are compared with the expected value directly. non-trivial = the canonical execution succeeded / the string contains a special character",
+		Rule:        "identifier cases: every string of length 1..3 (thorough 4) over {a,b,space,',[,],.,0,é} as a double-quoted identifier under PostgresEscapingDialect vs the same backtick identifier without it, in 5 clause positions, with and without IdiomaticArrays; literal cases: every string of length 1..3 (thorough 4) over {a,space,\",',`,\\,[,],ë} as a string literal (echo and WHERE operand) and as a backtick alias under the three non-trivial option combinations; array cases: every bracket expression of depth <= 2 (thorough 3) over elements {1,'x',a,'[y]','é',nested} vs the ARRAY(...) spelling, next to a backtick selector with brackets, a literal with brackets, and literals / aliases with multi-byte characters before and after the brackets; same-text cases: 6 statements that are legal with and without an option but mean something else, executed under alternating settings in one process (both orders); wrapped cases: 15 queries (paths, joins, CTE, subqueries with <-, EXISTS, UNION, missing path) on {root: doc} vs doc with Wrapped(), under 4 option combinations. Oracle: both executions return the same rows or both fail; literal and alias contents are compared with the expected value directly. non-trivial = the canonical execution succeeded / the string contains a special character",
 		Assumptions: []string{"double quotes inside double-quoted identifiers are outside the enumerated alphabet (the property fixes no escape for them)", "a panic on both sides is C10's matter and is not counted as an option-induced difference"},
 		Bounds:      map[string]any{"identifiers": len(p.idents), "literals": len(p.lits), "array_expressions": len(p.arrays), "wrapped_queries": len(p.queries)},
 		Exhaustive:  true,
